@@ -319,9 +319,14 @@ def searchFiles (s : State) (p : Params) : List Entry × Option Int :=
   | none => ([], none)
   | some rem => readEntries (keepE s.conf p) p.scan (wrap64 (p.offset + p.limit)) rem [] 0 none
 
+/-- What `searchMemory` keeps of a buffer record: host and client not ignored
+now, and `match`. -/
+def keepMem (c : Conf) (p : Params) (e : Entry) : Bool :=
+  !isIgnored c e.host && !clientIgnored c e.cid e.ip && matchE c p e
+
 /-- `searchMemory`. -/
 def searchMemory (s : State) (p : Params) : List Entry :=
-  if s.conf.memSize = 0 then [] else s.mem.reverse.filter (matchE s.conf p)
+  if s.conf.memSize = 0 then [] else s.mem.reverse.filter (keepMem s.conf p)
 
 /-- Stable insertion of `e` into a list sorted newest first (after all entries
 that are not older). -/
